@@ -687,6 +687,17 @@ def ctor_bypass(ctx):
                         and len(t.args) == 2 and isinstance(
                             t.args[1], ast.Constant):
                     lazy.add(t.args[1].value)
+                # self.X read inside try/except AttributeError: the same
+                # "may be absent" protocol
+                if isinstance(t, ast.Try) and any(
+                        h.type is not None and 'AttributeError' in
+                        unparse(h.type) for h in t.handlers):
+                    for st in t.body:
+                        for x in ast.walk(st):
+                            if isinstance(x, ast.Attribute) and isinstance(
+                                    x.value, ast.Name) and \
+                                    x.value.id == 'self':
+                                lazy.add(x.attr)
         missing = a1 - a2 - lazy
         ctx.ob(R, ci.fq + '|from_json-assigns-all', not missing, fj,
                'from_json bypasses __init__ but does not set {}'.format(
@@ -752,13 +763,14 @@ def load_only(ctx):
     ex = F.calls_to(lt, 'execute_file', depth=0)
     ok = bool(rl) and all(
         param_of(e.recv(), 'env') and any(
-            pos and param_of(F.atoms(t, e.fn), 'regenerating')
-            for t, pos in F.guards_pol(e.call, e.fn)) for e in rl)
+            pos and param_of(F.atoms(t, f_, b_), 'regenerating')
+            for t, pos, f_, b_ in F.guard_leaves(e.call, e.fn))
+        for e in rl)
     setp = [n for t, v, n in F.stores(lt)
             if has(t, 'toolchain', 'path') and param_of(v, 'path')]
     ok = ok and bool(setp) and all(any(
-        not pos and param_of(F.atoms(t, lt), 'regenerating')
-        for t, pos in F.guards_pol(n, lt)) for n in setp)
+        not pos and param_of(F.atoms(t, f_, b_), 'regenerating')
+        for t, pos, f_, b_ in F.guard_leaves(n, lt)) for n in setp)
     ctx.ob(R, 'load_toolchain|reload-when-regenerating', ok, lt.node,
            'variables are not reset to their initial values before the '
            'toolchain file is replayed (or the saved toolchain path is '
